@@ -19,6 +19,7 @@ type C18Case struct {
 	Row    map[string]any `json:"row"`              // argument values live in columns of one row (duplicated: purity across rows)
 	Expr   *sq.E          `json:"expr"`             // SELECT <Expr> AS v
 	Same   *sq.E          `json:"same,omitempty"`   // optional second item w; law: v == w (engine vs engine)
+	Other  *sq.E          `json:"other,omitempty"`  // optional further item u over the same columns, judged by the reference like v
 	Consts map[string]any `json:"consts,omitempty"` // WithConstants
 	Direct bool           `json:"direct,omitempty"` // also call the exported Go function directly
 	Class  string         `json:"class"`
@@ -507,6 +508,15 @@ func genC18(t *rapid.T) any {
 			c.Expr = sq.Call("UNWIND", c.Expr)
 		}
 		c.Direct = true
+		if a, ok := arr.([]any); ok && rapid.IntRange(0, 2).Draw(t, "shared") == 0 {
+			// two results built from the same array of the document in one query: ARRAY(col, x) and ARRAY(col, y)
+			// flattened one level each (the document's arrays carry spare capacity, as decoded JSON does)
+			col := b.arg(a, "sharedarr")
+			x, y := b.arg(genC18Scalar(t, "tailx"), "tailx"), b.arg(genC18Scalar(t, "taily"), "taily")
+			c.Expr = sq.Call("UNWIND", sq.Call("ARRAY", col, x))
+			c.Other = sq.Call("UNWIND", sq.Call("ARRAY", col, y, x))
+			c.Direct = false
+		}
 	case "array":
 		n := rapid.IntRange(0, 4).Draw(t, "n")
 		var args []*sq.E
@@ -878,8 +888,18 @@ func c18Judge(c *C18Case, nilText bool) Result {
 	if c.Same != nil {
 		sql += ", " + sq.Render(c.Same, nil) + " AS w"
 	}
+	var wantOther any
+	if c.Other != nil {
+		var oerr error
+		if wantOther, oerr = sq.Eval(c.Other, row, env); oerr != nil {
+			res.Harness = "reference value of the second item: " + oerr.Error()
+			return res
+		}
+		sql += ", " + sq.Render(c.Other, nil) + " AS u"
+		res.Labels = append(res.Labels, "two-results-from-one-array")
+	}
 	sql += " FROM t"
-	doc := map[string]any{"t": []any{val.Copy(row), val.Copy(row)}}
+	doc := map[string]any{"t": []any{val.CopySpare(row), val.CopySpare(row)}}
 	var extra []genql.QueryOption
 	if c.Consts != nil {
 		extra = append(extra, genql.WithConstants(val.CopyMap(c.Consts)))
@@ -941,6 +961,12 @@ func c18Judge(c *C18Case, nilText bool) Result {
 			if d := c18Match(gv, want); d != "" {
 				res.Violation = fmt.Sprintf("%s\n  %s", ctx, d)
 				return res
+			}
+			if c.Other != nil {
+				if d := c18Match(m["u"], wantOther); d != "" {
+					res.Violation = fmt.Sprintf("%s\n  second item u: %s", ctx, d)
+					return res
+				}
 			}
 			if c.Same != nil && !val.Equal(val.Norm(m["v"]), val.Norm(m["w"])) {
 				res.Violation = fmt.Sprintf("%s\n  v and w must be equal (round trip on the engine's own text): %s", ctx, val.JSON(r))
